@@ -9,6 +9,7 @@ package main
 
 import (
 	"fmt"
+	"os"
 	"sort"
 	"strings"
 
@@ -102,6 +103,12 @@ func classOfTransfer(w *World, tm *Terms, fr *Frame, in ssa.Instruction) string 
 				return true
 			})
 		}
+		if os.Getenv("VERIF_DEBUG") == "settle" && kind == "" {
+			for _, t := range ins {
+				fmt.Fprintf(os.Stderr, "SETTLE io-input %s\n", t.String())
+			}
+			fmt.Fprintf(os.Stderr, "SETTLE io-arg %s\n", tm.OperandAt(fr, in, args[1]).String())
+		}
 		switch kind {
 		case "SellingEscrow":
 			return "A"
@@ -122,6 +129,9 @@ func classOfTransfer(w *World, tm *Terms, fr *Frame, in ssa.Instruction) string 
 
 func (s *settleRule) step(st uint64, cls string) uint64 {
 	stage := st & ssStageMask
+	if os.Getenv("VERIF_DEBUG") == "settle" {
+		fmt.Fprintf(os.Stderr, "SETTLE step stage=%d cls=%s batch=%v\n", stage, cls, s.batch)
+	}
 	next := func(want, to uint64) uint64 {
 		if stage != want {
 			return st | ssViol
@@ -206,6 +216,9 @@ func (s *settleRule) OnInstr(x *Explorer, fr *Frame, in ssa.Instruction, st uint
 			if s.inLoopContext(fr, in) {
 				return st // the region event at loop entry stands for it
 			}
+			if os.Getenv("VERIF_DEBUG") == "settle" {
+				fmt.Fprintf(os.Stderr, "SETTLE xfer %s cls=%s inloop=%v\n", s.w.instrPos(in), classOfTransfer(s.w, s.tm, fr, in), s.inLoopContext(fr, in))
+			}
 			return s.step(st, classOfTransfer(s.w, s.tm, fr, in))
 		case EffStatusWrite:
 			if v, ok := statusTarget(x, fr, in); ok && (v == stVesting || v == stFinished) {
@@ -254,6 +267,9 @@ func (s *settleRule) OnLoopEnter(x *Explorer, fr *Frame, l *Loop, st uint64) uin
 			}
 		}
 		s.loopCls[key] = cls
+	}
+	if os.Getenv("VERIF_DEBUG") == "settle" {
+		fmt.Fprintf(os.Stderr, "SETTLE loop %s %s cls=%q\n", fr.Fn, s.w.instrPos(l.Header.Instrs[0]), cls)
 	}
 	if cls != "" {
 		return s.step(st, cls)
@@ -345,6 +361,22 @@ func (s *settleRule) OnBlock(x *Explorer, fr *Frame, b, pred *ssa.BasicBlock, st
 	return st
 }
 
+// OnCallbackReturn: block processing written as the callback of a walk over the auctions — the callback's return ends
+// the iteration for one auction exactly like the back edge of the loop over the collected list.
+func (s *settleRule) OnCallbackReturn(x *Explorer, cfr *Frame, st uint64) uint64 {
+	if len(cfr.Fn.Params) == 0 || s.w.walkValueParamOf(cfr.Fn.Params[len(cfr.Fn.Params)-1]) != "Auction" {
+		return st
+	}
+	stage := st & ssStageMask
+	if stage != 0 && stage != 5 {
+		return st | ssViol
+	}
+	if stage == 5 {
+		st |= ssDone
+	}
+	return st &^ (ssStageMask | ssRefund)
+}
+
 // ---------------------------------------------------------------- PAIR-FEE
 
 type feeRule struct {
@@ -430,13 +462,27 @@ func checkC02(w *World, r *Report) {
 	r.Rule("BANK-METHODS", "only coin-moving / reading bank methods", 3)
 	r.Rule("SETTLE-SEQ", "settlement steps complete and ordered", 2)
 	r.Rule("PAIR-FEE", "fee paid exactly once before the record", 5)
-	r.Rule("MSG-PROP", "errors propagate to the message handlers", 40)
+	r.Rule("MSG-PROP", "failures of transfers, fee payments and record writes fail the message", 15)
 	tm := NewTerms(w)
 	checkEscRole(w, r, tm)
 	checkBankMethods(w, r)
 	checkSettleSeq(w, r, tm)
 	checkPairFee(w, r, tm)
-	checkMsgProp(w, r, tm, "MSG-PROP")
+	{
+		// zero-sum needs the failures of the calls that move coins, pay fees or write records to fail the message (their
+		// partial effects are then rolled back); that every other failure propagates is C18's claim
+		saveKeep := r.keep
+		fees := keepAny(":call:keeper.Keeper.PayCreationFee", ":call:keeper.Keeper.PayPlaceBidFee", ":call:types.DistrKeeper.")
+		mine := func(rule, construct string) bool {
+			return rule != "MSG-PROP" || moneyMoves(rule, construct) || fees(rule, construct)
+		}
+		r.keep = mine
+		if saveKeep != nil {
+			r.keep = func(rule, construct string) bool { return saveKeep(rule, construct) && mine(rule, construct) }
+		}
+		checkMsgProp(w, r, tm, "MSG-PROP")
+		r.keep = saveKeep
+	}
 	// "the only amounts that leave a user's account are the fee and the amount reserved" / "the unused part of the reservation"
 	r.Sub(func(w *World, r *Report) { checkC01(w, r) }, "CREDIT-RECORD", "PAIR-RESERVE", "DRAIN", "VEST-SHARE", "VEST-REM", "VEST-ONCE", "VEST-DISTINCT")
 	r.Sub(checkC04, "RD-SIB", "REFUND-PROV")
